@@ -111,6 +111,10 @@ class FullCheck(BaseCheck):
         if rng.random() < 0.1:
           n = rng.randint(2, 5)
           act['chunks'] = [(rng.randint(1, 9), rng.choice([0.0, 0.001, 0.004])) for _ in range(n)]
+        if not act.get('drop') and rng.random() < bias.get('undecodable_reply', 0.04):
+          # a well-framed reply whose payload the client cannot decode as this call's reply
+          act['mangle'] = rng.choice(['truncate', 'empty', 'noise', 'bad-version', 'huge-string'])
+          classes.add('reply:undecodable')
         if rng.random() < bias.get('close_after_reply', 0.02):
           act['close'] = rng.choice(['fin', 'rst'])
           if rng.random() < 0.5 and 'delay' in act:
@@ -220,6 +224,12 @@ class FullCheck(BaseCheck):
         if m == 'fail' and rng.random() < 0.4:
           tagstr += ':FINE'         # this call returns a value; 'fail' otherwise raises its declared exception
         args = (ttypes.Pair(name=tagstr, n=cid, nums=[1, 2], kv={}),) if m == 'swap' else (tagstr,)
+        if rng.random() < bias.get('unserialisable', 0.03):
+          # an argument the binary protocol cannot write (wrong type for the declared field): the
+          # call never reaches a server, it still completes exactly once - with an error
+          classes.add('unserialisable-argument')
+          m, args = rng.choice([('echo', (cid * 1000 + 7,)), ('swap', ('not-a-struct-%d' % cid,)),
+                                ('echo', (ttypes.Pair(name=tagstr),))])
         T = rng.choice(Tset)
         if boundary and not (w.dispatcher._open_ar is not None and w.dispatcher._open_ar.ready()) and rng.random() < 0.7:
           # deadline on the very instant the pending open completes (connect latency, + one
